@@ -54,6 +54,28 @@ CheckCli(e) ==
              IN IF n = 1 THEN e.out[1] = <<IF a1 THEN r ELSE 0, 0>>
                 ELSE /\ e.out[1] = <<IF a1 /\ ~a2 THEN r ELSE 0, IF a1 /\ a2 THEN r ELSE 0>>
                      /\ e.out[2] = <<IF a2 /\ ~a1 THEN r ELSE 0, IF a1 /\ a2 THEN r ELSE 0>>
+\* gmars -debug: the debug reporter's transcript, projected onto its scheduling skeleton (the harness keeps the cycle, spawn,
+\* exec and warrior-terminated lines and counts the rest), must be the skeleton of the battle MARS.tla describes: one
+\* "cycle n" line per started cycle with n the completed-cycle count, one "exec" line per executed task in scheduling order
+\* with its program counter, one "wterm" line exactly when a warrior dies.  (Only asked of determined battles, one round.)
+SkelOf(ev) == LET f == SelectSeq(ev, LAMBDA t : t[1] \in {"Pop", "Die"})
+              IN [k \in 1..Len(f) |-> <<IF f[k][1] = "Pop" THEN "exec" ELSE "wterm", f[k][2], f[k][3]>>]
+RECURSIVE RunLog(_, _)
+RunLog(S, acc) == IF InProgress(S) THEN LET c == CycleW(S) IN RunLog(c.S, acc \o << <<"cycle", S.cycle, 0>> >> \o SkelOf(c.ev))
+                  ELSE acc
+BattleLog(cfg, ws, F) ==
+  LET S0 == NewState([M |-> cfg.M, P |-> cfg.P, C |-> cfg.C, RL |-> cfg.RL, WL |-> cfg.WL])
+      S1 == SpawnW(AddW(S0, [code |-> ws[1].code, start |-> ws[1].start]), 0, 0).S
+      S2 == IF Len(ws) = 2 THEN SpawnW(AddW(S1, [code |-> ws[2].code, start |-> ws[2].start]), 1, F).S ELSE S1
+  IN RunLog(S2, << <<"spawn", 0, 0>> >> \o (IF Len(ws) = 2 THEN << <<"spawn", 1, F % cfg.M>> >> ELSE << >>))
+CheckCliD(e) ==
+  LET cfg == Config(e.flags)
+      n   == Len(e.progs)
+      ms  == [k \in 1..n |-> Meaning(e.progs[k])]
+      okp == \A k \in 1..n : ~ms[k].err /\ e.progs[k].M = cfg.M /\ e.progs[k].L = cfg.L /\ e.progs[k].P = cfg.P
+                                /\ e.progs[k].D = cfg.D /\ e.progs[k].dialect = cfg.d
+  IN /\ CheckCli(e)
+     /\ (okp /\ e.flags.r = 1 /\ (n = 1 \/ e.flags.F # 0)) => e.log = BattleLog(cfg, ms, e.flags.F)
 \* gmars -A: no battle; one listing per warrior, which must read back (pMARS listing conventions, Formats!ReadListing) as
 \* what the warrior file denotes under the configuration the options describe
 CheckCliA(e) ==
@@ -67,7 +89,7 @@ CheckCliA(e) ==
      /\ Len(e.lists) = n
      /\ \A k \in 1..n : LET r == ReadListing(e.lists[k], cfg.d = 88, cfg.M) IN
                           r.ok /\ r.code = ms[k].code /\ r.start = ms[k].start
-Check(e) == IF e.ev = "cliA" THEN CheckCliA(e) ELSE CheckCli(e)
+Check(e) == IF e.ev = "cliA" THEN CheckCliA(e) ELSE IF e.ev = "cliD" THEN CheckCliD(e) ELSE CheckCli(e)
 NoMeaning(e) == \E k \in 1..Len(e.progs) : Meaning(e.progs[k]).err
 
 VARIABLE l
